@@ -36,6 +36,32 @@ def code_rows_unit(seq, unit=UNIT):
         return {'raised': repr(ex)}
 
 
+def code_rows_noisy(seq):
+    """The same history in tenths of the unit, each sample computed along another route (x/10, x*0.1, (x+7)*0.1-0.7): equal loads differ by rounding noise
+    (~1e-16), far below the detector's 1e-12; rows are brought back to the integer lattice by rounding."""
+    try:
+        vals = [x / 10.0 if i % 3 == 0 else (x * 0.1 if i % 3 == 1 else (x + 7) * 0.1 - 0.7) for i, x in enumerate(seq)]
+        det = hcm.two_pass(vals, 'lin')
+        c = det.recorder.collective
+        rows = [{'loads_min': int(round(float(c['loads_min'].iloc[i]) * 10.0)), 'loads_max': int(round(float(c['loads_max'].iloc[i]) * 10.0)),
+                 'closed': bool(c['is_closed_hysteresis'].iloc[i]), 'run': int(c['run_index'].iloc[i])} for i in range(len(c))]
+        # a plateau of the exact history is a run of tiny reversals in the noisy one: its hystereses of range ~1e-16 are real (and round to min = max); they are set aside
+        return {'rows': [r for r in rows if r['loads_min'] != r['loads_max']]}
+    except Exception as ex:
+        return {'raised': repr(ex)}
+
+
+def code_rows_dtype(seq, dtype):
+    """The same (non-negative) history handed over as an integer array of the given dtype (raw counts of an acquisition system)."""
+    try:
+        det = hcm.new_detector(hcm.ExactLaw('lin'))
+        det.process_hcm_first(np.asarray(seq, dtype=dtype))
+        det.process_hcm_second(np.asarray(seq, dtype=dtype))
+        return hcm.project(det)
+    except Exception as ex:
+        return {'raised': repr(ex)}
+
+
 def c04_verdict(p, per):
     """Property-level predicate D on the observed recorder content. per = list of (min,max) of the periodic rainflow."""
     if 'raised' in p:
@@ -118,6 +144,20 @@ def _replay_blocks(blocks):
             if badu:
                 viol.append((badu + ' (loads expressed in a 2^30 times larger unit)', {'sequence': list(s), 'load_unit_factor': UNIT}, {'periodic_cycles': sorted(per)},
                              [(r['loads_min'], r['loads_max'], r['closed'], r['run']) for r in pu.get('rows', [])] if 'rows' in pu else pu))
+        if n % 4 == 1 and not bad and max(abs(x) for x in s) < 1000:
+            pn = code_rows_noisy(s)
+            badn = c04_verdict(pn, per)
+            if badn:
+                viol.append((badn + ' (loads in tenths, equal loads differing by rounding noise of 1e-16)', {'sequence_times_10': list(s), 'routes': 'x/10, x*0.1, (x+7)*0.1-0.7 by position'},
+                             {'periodic_cycles': sorted(per)}, [(r['loads_min'], r['loads_max'], r['closed'], r['run']) for r in pn.get('rows', [])] if 'rows' in pn else pn))
+        if n % 2 == 0 and not bad and min(s) >= 0 and max(s) < 200:
+            for dt in (np.uint8, np.uint16, np.int32):
+                pdt = code_rows_dtype(s, dt)
+                badd = c04_verdict(pdt, per)
+                if badd:
+                    viol.append((badd + ' (loads handed over as a %s array)' % np.dtype(dt).name, {'sequence': list(s), 'dtype': np.dtype(dt).name}, {'periodic_cycles': sorted(per)},
+                                 [(r['loads_min'], r['loads_max'], r['closed'], r['run']) for r in pdt.get('rows', [])] if 'rows' in pdt else pdt))
+                    break
         if n % 5 == 0 and not bad:
             # the same history for two proportional points at once, load steps labelled in DEScending order and node ids not ascending:
             # what is counted for a point must not depend on the labels
@@ -329,7 +369,7 @@ def run(chk):
                        'SecondPass = rainflow of the periodic reversal sequence; every sequence is replayed into FKMNonlinearDetector (exact linear law) and the '
                        'recorder content is judged by the same definition-level predicate (every third sequence also in a second load unit, factor 2^-30). Non-trivial = periodic sequence closes >= 2 hystereses. '
                        'Recorded longer sequences and their non-reversal refinements are validated by Trace_HCM.tla (model conformance + C04 on the logged rows).')
-    chk.cov['rule'] += ' Also: strictly alternating sequences over -3..3 with up to 8 (9) samples (TLC on all, a fixed sample replayed), every third sequence in a second load unit (2^-30), every fifth as two proportional points with load steps labelled in descending order; strictly alternating sequences over {-(2^24+1), -2^24, 0, 3, 2^24, 2^24+2} with up to 6 (7) samples (near ties at a magnitude where x - 1e-12 = x), all replayed; sequences are handed over in arrays that are overwritten after each call.'
+    chk.cov['rule'] += ' Also: strictly alternating sequences over -3..3 with up to 8 (9) samples (TLC on all, a fixed sample replayed), every third sequence in a second load unit (2^-30), every fifth as two proportional points with load steps labelled in descending order; strictly alternating sequences over {-(2^24+1), -2^24, 0, 3, 2^24, 2^24+2} with up to 6 (7) samples (near ties at a magnitude where x - 1e-12 = x), all replayed; every fourth sequence in tenths with equal loads differing by rounding noise; non-negative sequences also as uint8 / uint16 / int32 arrays; sequences are handed over in arrays that are overwritten after each call.'
     chk.cov['exhaustive'] = True
     chk.assumptions += ['integer loads (and the same loads times 2^-30): the 1e-12 comparison tolerances of the code do not act', 'injected exact linear law object (the detector accepts any law object)',
                         'single assessment point (multi-point decisions are covered by C05)']
